@@ -274,7 +274,7 @@ func C08(c *Ctx) {
 		if ok {
 			for _, b := range f.Blocks {
 				ret, isRet := b.Instrs[len(b.Instrs)-1].(*ssa.Return)
-				if !isRet || len(ret.Results) == 0 {
+				if !isRet || b == f.Recover || len(ret.Results) == 0 {
 					continue
 				}
 				if k, isK := ret.Results[len(ret.Results)-1].(*ssa.Const); !isK || k.Value != nil {
